@@ -162,7 +162,7 @@ AReset == phase = "judged" /\ phase' = "idle" /\ wire' = NoWire /\ last' = Quiet
 VClassOk(t, vc) ==
   CASE vc \in {"generic"} -> TRUE
     [] vc = "identity" -> HasKind(t, PointKinds)
-    [] vc \in {"scalar1", "scalar_rm1"} -> HasKind(t, {"scalar", "scalarLE"})
+    [] vc \in {"scalar1", "scalar_rm1", "scalar80"} -> HasKind(t, {"scalar", "scalarLE"})
     [] vc \in {"empty", "one", "large"} -> HasKind(t, {"varbytes", "u64le"})
     [] vc \in {"id1", "id255", "idany"} -> HasKind(t, {"id"})
     [] OTHER -> FALSE
